@@ -9,6 +9,7 @@ def run(rep, tier, seed):
     rep.trusted += TRUSTED
     run_contracts(rep, "contracts.frames_derived", tier, seed)
     run_contracts(rep, "contracts.frames", tier, seed)
+    run_contracts(rep, "contracts.parser_read", tier, seed)
     run_contracts(rep, "contracts.groom", tier, seed)
     run_contracts(rep, "contracts.aggregate", tier, seed)
     # the callable that normalize_to_gmt re-registers behaves the same whichever instance it is bound to: the
@@ -16,6 +17,8 @@ def run(rep, tier, seed):
     run_contracts(rep, "contracts.types_dt", tier, seed, select=lambda c: c.target.endswith(".unconvert"), accept_props=["C09", "C10", "C11"])
     run_contracts(rep, "contracts.purity_native", tier, seed)
     compose(rep)
+    from props.tables import run_tables
+    run_tables(rep, rep.prop)
     from props.census import run_census
     import os
     run_census(rep, os.environ.get("VERIF_REPO", "/repo"))
